@@ -6,7 +6,7 @@ from fractions import Fraction
 
 import numpy as np
 
-from lib import Prop, coq_eval, coq_q, coq_list, coq_bool, coq_string
+from lib import Prop, coq_eval, coq_q, coq_list, coq_bool, coq_string, unsome
 import util  # noqa: F401  (sets up the import of the live /repo tree)
 from util import Hamiltonian, TensorProduct
 
@@ -80,6 +80,17 @@ def coq_mexp(e):
     if e[0] == "Mul":
         return f"(MMul {coq_mexp(e[1])} {coq_mexp(e[2])})"
     return f"({e[0]} {coq_mexp(e[1])})"
+
+
+def unat(v):
+    """the output parser leaves nullary constructors in argument position as ("@", name)"""
+    if isinstance(v, tuple):
+        if len(v) == 2 and v[0] == "@":
+            return v[1]
+        return tuple(unat(x) for x in v)
+    if isinstance(v, list):
+        return [unat(x) for x in v]
+    return v
 
 
 def parse_mexp(v):
@@ -443,9 +454,12 @@ class C15(Prop):
             if "harness_exception" in ob:
                 continue
             inp = self._coq_input(c, ob)
-            exprs.append(f"(let i := {inp} in (generate true i, generate false i))")
+            # the dictionaries do not depend on bug_sign: only the term list of the second variant is printed
+            # (coq_eval reads coqc's output through a pipe: a shard has to stay below the pipe buffer)
+            exprs.append(f"(let i := {inp} in (generate true i, "
+                         "match generate false i with Ok r => Some (fst (fst r)) | _ => None end))")
             idx.append(i)
-        vals = coq_eval(ctx, IMPORTS, exprs, shard=40)
+        vals = coq_eval(ctx, IMPORTS, exprs, shard=5)
         out = [None] * len(cases)
         for i, v in zip(idx, vals):
             out[i] = v
@@ -454,6 +468,7 @@ class C15(Prop):
     @staticmethod
     def _norm_model(m):
         """parsed `result` value -> ("Ok", terms, conv, coeffs) | ("KeyError", k) | ("ValueError",)"""
+        m = unat(m)
         if m == "ValueError":
             return ("ValueError",)
         if m[0] == "KeyError":
@@ -533,7 +548,12 @@ class C15(Prop):
         if d:
             return d
         m_true = self._norm_model(mo[0])
-        m_false = self._norm_model(mo[1])
+        m_false = m_true
+        if m_true[0] == "Ok":
+            alt = unsome(mo[1])
+            if alt is None:
+                return "model: generate false fails where generate true returns"
+            m_false = ("Ok", [[Fraction(t[0]), t[1], [[k, v] for k, v in t[2]]] for t in alt], m_true[2], m_true[3])
         d_true = self._cmp_one(case, ob, m_true)
         if d_true is None:
             return None          # the code as recorded (known finding if any product term exists)
